@@ -1,8 +1,8 @@
 package main
 
 import (
-	"regexp"
 	"fmt"
+	"regexp"
 	"strings"
 
 	"golang.org/x/tools/go/ssa"
@@ -165,7 +165,7 @@ func (lm *lemmas) index(in ssa.Instruction, s, idx ssa.Value) (ok bool, why stri
 }
 
 func (lm *lemmas) slice(fn *ssa.Function, x *ssa.Slice) (ok bool, why string, handled bool) {
-	if fnPkgName(fn) != "lexer" || describe(x.X) != "s.source" {
+	if fnPkgName(fn) != "lexer" || recvFieldExpr(fn, x.X) != "$.source" {
 		return false, "", false
 	}
 	// lemma (c): start+klo <= current+khi needs that many consumed runes; the rest (0 <= start, current <= len) are field invariants
